@@ -94,6 +94,7 @@ def valuations(rng):
 
 class C06(object):
     id = 'C06'
+    anchors = ('Sector.AddCashFlow', 'Equation.AddTerm', 'Model.AddCashFlowIncomeExclusion')
     title = 'Sector ledgers reflect exactly the cash flows recorded on them'
     rule = ('one case = one history of 1-40 calls on a real Sector (AddCashFlow with signed / bracketed / product / '
             'quotient / full-name terms, repeats and cancellations, eqn None/empty/expression, income flag; income '
